@@ -399,10 +399,20 @@ def main():
     chk.cov['evaluations'] = paths
     chk.cov['distinct_nontrivial'] = paths
     chk.cov['exhaustive'] = True
+    from . import extras7
+    for fn_ in ('equal_root_models',):
+        for pr in getattr(extras7, fn_)()[:2]:
+            chk.violation(pr, {'extras7': fn_})
+        chk.cov['traces_validated_against_impl'] += 1
+    chk.cov.setdefault('bounds', {})['concrete_supplements_round7'] = ['equal_root_models']
     return chk.finish('one path per subset of processor calls that return a replacement, per case; each is a real load')
 
 
 def replay(data):
+    if isinstance(data, dict) and data.get('extras7'):
+        from . import extras7
+        pr = getattr(extras7, data['extras7'])()
+        return bool(pr), pr[:2]
     if 'reload_after_failure' in data:
         pr = reload_after_failing_processor(data['reload_after_failure'])
         return bool(pr), pr
